@@ -185,6 +185,10 @@ def validate(ctx, items, tag):
 
 
 def run(ctx, args):
+    wmax = int(os.environ.get("VERIF_TLC_WORKERS", "0") or 0)      # optional cap on TLC workers (loaded machines)
+    if wmax:
+        tlc0 = ctx.tlc
+        ctx.tlc = lambda *a, **kw: tlc0(*a, **dict(kw, workers=min(wmax, kw.get("workers") or wmax)))
     harness = inproc(ctx)
     if args.replay:
         rp = json.load(open(args.replay))
@@ -287,5 +291,8 @@ def run(ctx, args):
         assumptions=["both ASTs are projected after CheckAll (FixWarnings off) + ResolveSymbols, as the trimmer dumps a resolved AST",
                      "a double may come back as an integer literal of equal value (Norm in Roundtrip.tla treats both directions alike)",
                      "cpp_type, comments and literals containing raw line breaks are outside the universe",
+                     "literal contents in which a backslash stands immediately before a quote character are outside the universe (the "
+                     "alphabet symbols \\\\\" and \\\\' and the sequences backslash + quote): per docs/string-literals-in-the-IDL.md the walker "
+                     "keeps a backslash pair, so such contents cannot be written in double quotes at all (LexLit.tla WalkLit / Plain)",
                      "documents whose original is rejected by parser or checker are outside the quantifier and skipped"],
         trusted=["TLC", "harness/cmd/inproc/lexical.go (projection)", "lib/idl.py renderer"])
